@@ -151,12 +151,93 @@ func init() {
 		schedPass(c, pick(c, 6, 6), pick(c, 5, 6), "")
 		// wider but shallower: deletions of whole aligned subtrees of 4 need 8 leaves
 		schedPass(c, pick(c, 8, 9), 3, "wide.")
+		schedAligned(c)
 	}
+}
+
+// schedAligned: structured larger histories: [add N][delete a union of up to two aligned blocks,
+// add k][delete one aligned block of live leaves][delete one more leaf], N = 16 (thorough: 12, 16,
+// 24, 32), every memory limit.
+func schedAligned(c *Ctx) {
+	Ns := []int{16}
+	if c.Thorough() {
+		Ns = []int{12, 16, 24, 32}
+	}
+	c.Cov.Bound["aligned.N"] = fmt.Sprint(Ns)
+	var hists [][]Op
+	for _, N := range Ns {
+		blocks := alignedUnions(N, 1)
+		for _, S := range alignedUnions(N, 2) {
+			dead := map[int]bool{}
+			for _, d := range S {
+				dead[d] = true
+			}
+			for _, k := range []int{0, 1} {
+				base := []Op{{Kind: "block", Adds: N}, {Kind: "block", Dels: S, Adds: k}}
+				hists = append(hists, base)
+				for _, b := range blocks {
+					var live []int
+					for _, x := range b {
+						if !dead[x] {
+							live = append(live, x)
+						}
+					}
+					if len(live) == 0 || len(live) != len(b) {
+						continue
+					}
+					h := append(append([]Op(nil), base...), Op{Kind: "block", Dels: live})
+					hists = append(hists, h)
+					// one more single deletion: the lowest live leaf that is left
+					for x := 0; x < N+k; x++ {
+						if !dead[x] && !containsInt(live, x) {
+							hists = append(hists, append(append([]Op(nil), h...), Op{Kind: "block", Dels: []int{x}}))
+							break
+						}
+					}
+				}
+			}
+		}
+	}
+	var evalsN int64
+	ok := parallelFor(c, len(hists), func(i int) {
+		h := hists[i]
+		total := 0
+		for _, op := range h {
+			total += op.Adds
+		}
+		for _, m := range []int{1, 2, 3, total / 2, total - 1, total, total + 1} {
+			if m < 1 {
+				continue
+			}
+			vs, ev := evalSched(schedCase{Hist: h, Mem: m})
+			atomic.AddInt64(&evalsN, ev)
+			c.Col.Add(vs...)
+		}
+		if i%9973 == 0 {
+			c.Cov.Sample("aligned: " + histStr(h))
+		}
+	})
+	if !ok {
+		c.Cov.NotExhaustive("deadline reached in the aligned schedule family")
+	}
+	c.Cov.AddStates(int64(len(hists)))
+	c.Cov.AddTransitions(evalsN)
+	c.Cov.AddEvals(evalsN)
+	c.Cov.AddNontrivial(int64(len(hists)))
+}
+
+func containsInt(a []int, x int) bool {
+	for _, y := range a {
+		if y == x {
+			return true
+		}
+	}
+	return false
 }
 
 func schedPass(c *Ctx, nmax, depth int, tag string) {
 	{
-		c.Cov.Rule = "every block history (no de-duplication) with at most Nmax leaves ever added and at most D blocks (every deletion subset of the live leaves x every addition count, non-empty blocks); the summaries fed to AddBlockSummary are the reference proof targets in request order and the addition counts; GenerateCachingSchedule is evaluated for every memory limit from 1 to (leaves ever added)+1 on a fresh tracker; oracle from the model's birth/death table: every scheduled position of block b is the insertion slot of a leaf added in b and deleted in a later block, ascending without repeats, at most m scheduled leaves alive across any block, complete when m >= leaves ever added, no panic; states = histories, transitions = (history, limit) evaluations, a second, wider and shallower pass (more leaves, depth 3) reaches deletions of whole aligned subtrees of four; non-trivial = histories with a deletion"
+		c.Cov.Rule = "every block history (no de-duplication) with at most Nmax leaves ever added and at most D blocks (every deletion subset of the live leaves x every addition count, non-empty blocks); the summaries fed to AddBlockSummary are the reference proof targets in request order and the addition counts; GenerateCachingSchedule is evaluated for every memory limit from 1 to (leaves ever added)+1 on a fresh tracker; oracle from the model's birth/death table: every scheduled position of block b is the insertion slot of a leaf added in b and deleted in a later block, ascending without repeats, at most m scheduled leaves alive across any block, complete when m >= leaves ever added, no panic; states = histories, transitions = (history, limit) evaluations, a second, wider and shallower pass (more leaves, depth 3) reaches deletions of whole aligned subtrees of four; a third, structured pass uses 16 (thorough: up to 32) leaves with unions of aligned blocks deleted over up to four blocks and the memory limits 1, 2, 3, half, total-1, total, total+1; non-trivial = histories with a deletion"
 		c.Cov.Bound[tag+"Nmax"] = nmax
 		c.Cov.Bound[tag+"depth"] = depth
 		// first-level subtrees as parallel tasks: enumerate all histories of depth<=2 as seeds
